@@ -128,4 +128,74 @@ for fair in (True, False):
     write("semaphore", "huge-requests-%s.ndjson" % ("fair" if fair else "unfair"),
           {"K": 3, "Fair": fair, "Wk": [1, 2], "Init0": 2, "MaxReq": 1, "Reqs": [0, 1], "MaxP": 8, "MaxRels": 4},
           ops, "requests near usize::MAX can never be granted")
+
+# ---- long chains: one wake-up per call, many calls
+NP = 30
+# mpmc: NP senders parked behind a full one-slot buffer, drained by try_recv one at a time
+ops = [{"op": "try_send", "v": 1}]
+for i in range(1, NP + 1):
+    ops.append({"op": "create_send", "s": i, "v": 1 + i})
+for i in range(1, NP + 1):
+    ops.append({"op": "poll_send", "s": i, "w": "A" if i % 2 else "B"})
+for i in range(1, NP + 1):
+    ops.append({"op": "try_recv"})
+    ops.append({"op": "poll_send", "s": i, "w": "A"})
+ops += [{"op": "try_recv"}, {"op": "try_recv"}]
+for i in range(1, NP + 1):
+    ops.append({"op": "drop_send", "s": i})
+write("mpmc", "mass-drain-senders.ndjson",
+      {"NS": NP, "NR": 2, "Cap": 1, "Wk": [1, 2], "MaxV": 60, "MaxH": 1, "Shared": False, "WithStream": False, "WithCancel": True},
+      ops, "NP parked senders move into the buffer one receive at a time, in order")
+# mpmc: NP receivers parked on an empty channel, served by try_send one at a time
+ops = []
+for i in range(1, NP + 1):
+    ops.append({"op": "create_recv", "r": i})
+for i in range(1, NP + 1):
+    ops.append({"op": "poll_recv", "r": i, "w": "A" if i % 2 else "B"})
+for i in range(1, NP + 1):
+    ops.append({"op": "try_send", "v": i})
+    ops.append({"op": "poll_recv", "r": i, "w": "A"})
+for i in range(1, NP + 1):
+    ops.append({"op": "drop_recv", "r": i})
+write("mpmc", "mass-serve-receivers.ndjson",
+      {"NS": 2, "NR": NP, "Cap": 1, "Wk": [1, 2], "MaxV": 60, "MaxH": 1, "Shared": False, "WithStream": False, "WithCancel": True},
+      ops, "NP parked receivers are served one send at a time, in order")
+# mutex: K waiters behind a holder, the guard travels down the queue
+for fair in (True, False):
+    ops = [{"op": "try_lock"}]
+    for i in range(1, K + 1):
+        ops.append({"op": "create", "f": i})
+    for i in range(1, K + 1):
+        ops.append({"op": "poll", "f": i, "w": "A" if i % 3 else "B"})
+    for i in range(1, K + 1):
+        ops.append({"op": "drop_guard"})
+        ops.append({"op": "poll", "f": i, "w": "A"})
+    ops.append({"op": "drop_guard"})
+    for i in range(1, K + 1):
+        ops.append({"op": "drop", "f": i})
+    write("mutex", "mass-chain-%s.ndjson" % ("fair" if fair else "unfair"), {"K": K, "Fair": fair, "Wk": [1, 2]}, ops,
+          "K waiters, the guard is handed down the queue one unlock at a time")
+
+# ---- a user-provided RealArray (length 96: above 64, not a power of two), filled completely, wrapped twice
+U = 96
+ops = [{"op": "push", "v": v} for v in range(1, U + 1)]
+ops += [{"op": "push", "v": U + 1}, {"op": "query"}]
+ops += [{"op": "pop"} for _ in range(60)]
+ops += [{"op": "push", "v": v} for v in range(U + 1, U + 61)]
+ops += [{"op": "query"}]
+ops += [{"op": "pop"} for _ in range(80)]
+ops += [{"op": "push", "v": v} for v in range(U + 61, U + 101)]
+ops += [{"op": "pop"} for _ in range(50)]
+ops += [{"op": "drop_buffer"}]
+write("ring", "mass-user-array.ndjson", {"Cap": U, "MaxV": 200}, ops,
+      "ArrayBuf over a user RealArray of 96 elements: full, wrapped twice, dropped with elements left", flavours=["array"])
+ops = [{"op": "try_send", "v": v} for v in range(1, U + 1)]
+ops.append({"op": "try_send", "v": U + 1})
+ops += [{"op": "try_recv"} for _ in range(70)]
+ops += [{"op": "try_send", "v": v} for v in range(U + 1, U + 51)]
+ops.append({"op": "close"})
+ops += [{"op": "try_recv"} for _ in range(77)]
+write("mpmc", "mass-user-array.ndjson",
+      {"NS": 2, "NR": 2, "Cap": U, "Wk": [1, 2], "MaxV": 160, "MaxH": 1, "Shared": False, "WithStream": False, "WithCancel": True},
+      ops, "channel over a user RealArray of 96 elements", flavours=["local-array", "pl-array"])
 print("mass histories written")
